@@ -85,6 +85,18 @@ def gen(rng, tier):
     kinds = [k for k, v in w.items() for _ in range(v)]
     ops = []
     fresh = 0
+    if rng.random() < 0.12 and sets:
+        # many levels: one fresh label per round, each round consumed level-wise (the level counter
+        # has to keep counting however many levels there are)
+        n_labels = rng.randint(12, 26)
+        for l in range(n_labels):
+            ops.append(["add", l])
+            ops.append([rng.choice(["lvl_all", "lvl_all", "drain"])])
+            if rng.random() < 0.2:
+                ops.append(["restart"])
+        ops.append(["drain"])
+        ops.append(["next"])
+        return {"layer": "machine", "pack": [n_inf, n_init, sets], "n_labels": n_labels, "ops": ops}
     for _ in range(n_ops):
         k = rng.choice(kinds)
         if k == "add":
@@ -130,8 +142,19 @@ def execute(R, ctx):
     marks = 0
     exhaustions = 0
 
+    expansion_names = {s.name for st in pack.expansion_strats for s in st}
+    added_level = {}
+
     def handed(wp):
         ctx.ev("pkt", wp.label, tuple(s.name for s in wp.strategies), wp.inferral)
+        if not wp.inferral and wp.strategies[0].name in expansion_names:
+            # P6: expansion work belongs to a later level than the one in which the label was queued
+            if q.levels_completed <= added_level.get(wp.label, -1):
+                raise Violation(
+                    "P6-expansion-in-the-level-of-the-add",
+                    f"label {wp.label} was added while the level counter was {added_level[wp.label]} and receives expansion work "
+                    f"{wp.strategies[0].name} while the counter is still {q.levels_completed}",
+                )
         try:
             mon.on_packet(wp.label, tuple(s.name for s in wp.strategies), wp.inferral)
         except QueueViolation as e:
@@ -188,6 +211,7 @@ def execute(R, ctx):
     for op in R["ops"]:
         k = op[0]
         if k == "add":
+            added_level.setdefault(op[1], q.levels_completed)
             q.add(op[1])
             mon.on_add(op[1])
             ctx.ev("add", op[1])
